@@ -1,11 +1,13 @@
 #!/bin/bash
-# usage: tools/seedrun.sh <seed-name> <property> [tier]   -- applies seeded/<name>/patch.diff to /repo, runs the check, reverts
+# usage: tools/seedrun.sh <seed-name> <property> [tier]   -- applies seeded/<name>/patch.diff to the repository
+# (${VERIF_REPO:-/repo}), runs the check, reverts
 set -u
 cd "$(dirname "$0")/.."
 name=$1; prop=$2; tier=${3:-quick}
-git -C /repo diff --quiet || { echo "/repo has uncommitted changes"; exit 3; }
-git -C /repo apply $PWD/seeded/$name/patch.diff || { echo "patch does not apply"; exit 3; }
+REPO=${VERIF_REPO:-/repo}
+git -C $REPO diff --quiet || { echo "$REPO has uncommitted changes"; exit 3; }
+git -C $REPO apply $PWD/seeded/$name/patch.diff || { echo "patch does not apply"; exit 3; }
 ./check $prop --tier $tier; rc=$?
-git -C /repo checkout -- .
+git -C $REPO checkout -- .
 echo "seed=$name property=$prop exit=$rc"
 exit $rc
